@@ -22,3 +22,95 @@ impl Default for AgentpackMcp {
         Self::new()
     }
 }
+
+#[cfg(agentpack_verif)]
+pub mod verif_token {
+    //! Drives the confirm-token store with explicit millisecond clocks (verification hook).
+    use std::time::{Duration, Instant};
+
+    use super::confirm;
+
+    pub type Binding = [Option<String>; 4];
+
+    #[derive(Debug, Clone)]
+    pub enum TokenOp {
+        Insert {
+            token: String,
+            binding: Binding,
+            plan_hash: String,
+            now_ms: u64,
+        },
+        Validate {
+            token: String,
+            binding: Binding,
+            now_ms: u64,
+        },
+        Consume {
+            token: String,
+        },
+    }
+
+    #[derive(Debug, Clone)]
+    pub enum TokenOut {
+        Unit,
+        Ok(String),
+        Err(String),
+    }
+
+    fn binding(b: &Binding) -> confirm::ConfirmTokenBinding {
+        confirm::ConfirmTokenBinding::verif_new(
+            b[0].clone(),
+            b[1].clone(),
+            b[2].clone(),
+            b[3].clone(),
+        )
+    }
+
+    pub fn ttl_ms() -> u64 {
+        confirm::CONFIRM_TOKEN_TTL.as_millis() as u64
+    }
+
+    pub fn run_token_ops(ops: &[TokenOp]) -> Vec<(TokenOut, Vec<String>)> {
+        let base = Instant::now();
+        let mut store = confirm::ConfirmTokenStore::default();
+        let mut out = Vec::new();
+        for op in ops {
+            let res = match op {
+                TokenOp::Insert {
+                    token,
+                    binding: b,
+                    plan_hash,
+                    now_ms,
+                } => {
+                    confirm::insert_token(
+                        &mut store,
+                        token.clone(),
+                        binding(b),
+                        plan_hash.clone(),
+                        base + Duration::from_millis(*now_ms),
+                    );
+                    TokenOut::Unit
+                }
+                TokenOp::Validate {
+                    token,
+                    binding: b,
+                    now_ms,
+                } => match confirm::validate_token(
+                    &mut store,
+                    token,
+                    &binding(b),
+                    base + Duration::from_millis(*now_ms),
+                ) {
+                    Ok(h) => TokenOut::Ok(h),
+                    Err(e) => TokenOut::Err(e.code),
+                },
+                TokenOp::Consume { token } => {
+                    confirm::consume_token(&mut store, token);
+                    TokenOut::Unit
+                }
+            };
+            out.push((res, store.verif_tokens()));
+        }
+        out
+    }
+}
